@@ -327,4 +327,68 @@ theorem processSeq_sync_async (evs : List Ev) (E : Eng) :
     have h2 := ih (drain false maxChainDepth E [e]).eng
     exact ⟨h2.1, by rw [h2.2]⟩
 
+/-! ## What was wrong before the repairs (concrete witnesses on the `legacy*` definitions) -/
+
+/-- a stream with `.emit`: every handed event is emitted (and output) under the stream's name -/
+def emitStream (name : Ty) (subs : List Ty) : SDef :=
+  { name := name, subs := subs, prim := subs, isJoin := false, hasProcess := false, nops := 1, defId := name
+    resp := fun _ e => { outs := [{ ty := name, pl := e.pl }], emitted := [{ ty := name, pl := e.pl }] } }
+
+/-- a filter stream without `.emit`: the handed event is output (before the rename), nothing is emitted -/
+def passStream (name : Ty) (subs : List Ty) : SDef :=
+  { name := name, subs := subs, prim := subs, isJoin := false, hasProcess := false, nops := 1, defId := name
+    resp := fun _ e => { outs := [e], emitted := [] } }
+
+/-- a stream whose answer depends on its state: emits how many events it had been handed before -/
+def countStream (name : Ty) (subs : List Ty) (on : Ty) : SDef :=
+  { name := name, subs := subs, prim := subs, isJoin := false, hasProcess := false, nops := 1, defId := name
+    resp := fun hist e => if e.ty = on then
+        { outs := [{ ty := name, pl := hist.length }], emitted := [{ ty := name, pl := hist.length }] }
+      else { outs := [], emitted := [] } }
+
+/-- a two-source join: answers from the second handed event on -/
+def joinStream (name : Ty) (subs : List Ty) : SDef :=
+  { name := name, subs := subs, prim := [], isJoin := true, hasProcess := false, nops := 1, defId := name
+    resp := fun hist e => if hist.isEmpty then { outs := [], emitted := [] }
+      else { outs := [{ ty := name, pl := e.pl }], emitted := [{ ty := name, pl := e.pl }] } }
+
+/-- `.process(f())` without `.emit`: the function emits an event of another type -/
+def processStream (name : Ty) (subs : List Ty) (other : Ty) : SDef :=
+  { name := name, subs := subs, prim := subs, isJoin := false, hasProcess := true, nops := 1, defId := name
+    resp := fun _ e => { outs := [{ ty := other, pl := e.pl }], emitted := [] } }
+
+/-- chain `F = A.emit`, `D = F.emit`: the pre-repair batch paths emitted `F,F,D,D`, `process` emits `F,D,F,D` -/
+theorem legacy_batch_order_differs :
+    let E := load [emitStream 10 [0], emitStream 11 [10]]
+    (legacyBatchCall false E [⟨0, 1⟩, ⟨0, 2⟩]).sent = [⟨10, 1⟩, ⟨10, 2⟩, ⟨11, 1⟩, ⟨11, 2⟩] ∧
+    (perEvent E [⟨0, 1⟩, ⟨0, 2⟩]).sent = [⟨10, 1⟩, ⟨11, 1⟩, ⟨10, 2⟩, ⟨11, 2⟩] := by decide
+
+/-- a stream fed by an input type *and* a stream derived from it saw the events in another order on the
+pre-repair batch paths: not only the order but the outputs themselves differed -/
+theorem legacy_batch_content_differs :
+    let E := load [emitStream 10 [0], countStream 12 [0, 10] 10]
+    (legacyBatchCall false E [⟨0, 1⟩, ⟨0, 2⟩]).sent = [⟨10, 1⟩, ⟨10, 2⟩, ⟨12, 2⟩, ⟨12, 3⟩] ∧
+    (perEvent E [⟨0, 1⟩, ⟨0, 2⟩]).sent = [⟨10, 1⟩, ⟨12, 1⟩, ⟨10, 2⟩, ⟨12, 3⟩] := by decide
+
+/-- `S0 = A.emit`, `S1 = A.where(..)` (no emit, nobody consumes `S1`): the pre-repair sync path queued
+`S1`'s un-renamed output, which is an `A` event again: `S0` emitted `MAX_CHAIN_DEPTH` copies, and `S1`
+was handed the event ten times -/
+theorem legacy_sync_rename_duplicates :
+    let E := load [emitStream 10 [0], passStream 11 [0]]
+    (legacyDrainSync maxChainDepth E [⟨0, 7⟩]).sent = List.replicate 10 ⟨10, 7⟩ ∧
+    (legacyDrainSync maxChainDepth E [⟨0, 7⟩]).eng.hist 11 = List.replicate 10 ⟨0, 7⟩ ∧
+    (perEvent E [⟨0, 7⟩]).sent = [⟨10, 7⟩] ∧ (perEvent E [⟨0, 7⟩]).eng.hist 11 = [⟨0, 7⟩] := by decide
+
+/-- the pre-repair sync path returned nothing for join sources -/
+theorem legacy_sync_join_starves :
+    let E := load [joinStream 10 [0, 1]]
+    (legacyDrainSync maxChainDepth (legacyDrainSync maxChainDepth E [⟨0, 1⟩]).eng [⟨1, 2⟩]).sent = [] ∧
+    (perEvent E [⟨0, 1⟩, ⟨1, 2⟩]).sent = [⟨10, 2⟩] := by decide
+
+/-- `.process()` without `.emit`: the pre-repair sync path sent the outputs under the function's event
+type instead of the stream name -/
+theorem legacy_sync_process_type :
+    let E := load [processStream 10 [0] 20]
+    (legacyDrainSync maxChainDepth E [⟨0, 1⟩]).sent = [⟨20, 1⟩] ∧ (perEvent E [⟨0, 1⟩]).sent = [⟨10, 1⟩] := by decide
+
 end Varpulis.EngineRoute
